@@ -45,6 +45,8 @@ ENGINES = {
     "rel": dict(tool="stable", profile="release", features=True),
     "nd-dev": dict(tool="stable", profile="dev", features=False),
     "nd-rel": dict(tool="stable", profile="release", features=False),
+    "al-dev": dict(tool="stable", profile="dev", features=False, alloc=True),
+    "al-rel": dict(tool="stable", profile="release", features=False, alloc=True),
     "asan": dict(tool="asan", profile="release", features=True),
     "miri": dict(tool="miri", profile="dev", features=True),
     "miri-rel": dict(tool="miri", profile="release", features=True),
@@ -57,7 +59,7 @@ def target_dir(engine):
         return os.path.join(VERIF, "target-alt-miri" if ALT else "target-miri")
     if e["tool"] == "asan":
         return os.path.join(VERIF, "target-alt-asan" if ALT else "target-asan")
-    return os.path.join(VERIF, ("target-alt-" if ALT else "target-") + ("nd" if not e["features"] else "std"))
+    return os.path.join(VERIF, ("target-alt-" if ALT else "target-") + ("al" if e.get("alloc") else "nd" if not e["features"] else "std"))
 
 
 def engine_env(engine):
@@ -92,6 +94,8 @@ def build_cmd(engine):
         cmd.append("--release")
     if not e["features"]:
         cmd.append("--no-default-features")
+    if e.get("alloc"):
+        cmd += ["--features", "alloc"]
     if e["tool"] == "asan":
         cmd += ["--target", "x86_64-unknown-linux-gnu"]
     if e["tool"] == "miri":
